@@ -18,8 +18,9 @@ from checks.c11 import plans_from_tlc
 
 def run(ctx):
     from harness.cli import c18_sparse as S, c18_decode as D, c1819_lib as U
-    bins = build.cli("plain")
+    bins = U.snapshot_bins(ctx)
     xz = bins["xz"]
+    U.lz()                       # load the library built from the same tree state as the tools
     q = ctx.quick
     rng = ctx.rng
     lock = threading.Lock()
